@@ -1115,9 +1115,111 @@ def check_files_write(ctx, rep, rng, tier):
     return cnt
 
 
+# ------------------------------------------------------------------ SignatureHeader (writer side)
+def sig_state(o):
+    return [[list(o.version[0]), list(o.version[1])], o.startheadercrc, o.nextheaderofs, o.nextheadersize, o.nextheadercrc]
+
+
+def sig_from_state(st):
+    o = ai.SignatureHeader()
+    o.version = (bytes(st[0][0]), bytes(st[0][1]))
+    o.startheadercrc, o.nextheaderofs, o.nextheadersize, o.nextheadercrc = st[1], st[2], st[3], st[4]
+    return o
+
+
+def check_sig_write(ctx, rep, rng, tier):
+    if not available(ctx, "gen_SignatureHeader_write"):
+        return 0
+    model = ctx["model"]
+    cnt = 0
+
+    def val(bits):
+        r = rng.random()
+        if r < 0.1:
+            return rng.choice([-1, 0, 1 << bits, (1 << bits) - 1])
+        return rng.getrandbits(rng.choice([1, 8, bits]))
+    for i in range(500 if tier == "quick" else 15000):
+        ver = [[0], [4]] if rng.random() < 0.8 else [[rng.randrange(256) for _ in range(rng.choice([0, 1, 2]))], [rng.randrange(256)]]
+        st = [ver, val(32), val(64), val(64), val(32)]
+        # calccrc
+        o = sig_from_state(st)
+        length, hcrc = val(64), val(32)
+        try:
+            o.calccrc(length, hcrc)
+            want = [0, sig_state(o)]
+        except Exception as e:  # noqa
+            want = [1, err_code(e)]
+        got = model.call("gen_SignatureHeader_calccrc", [st, length, hcrc])
+        cnt += 1
+        rep.dist("translation_SignatureHeader", "calccrc %s" % ("ok" if want[0] == 0 else "err%d" % want[1]))
+        if got != want:
+            _violation(rep, "the function translated from SignatureHeader.calccrc disagrees with the Python on %r, %r, %r: generated %r, "
+                            "Python %r" % (st, length, hcrc, got, want), {"object": st, "length": length, "crc": hcrc}, "SignatureHeader.calccrc")
+            return cnt
+        # write (after calccrc when that worked: the state a real session has), _write_skeleton
+        st2 = want[1] if want[0] == 0 and rng.random() < 0.7 else st
+        for fn, meth in (("gen_SignatureHeader_write", "write"), ("gen_SignatureHeader_write_skeleton", "_write_skeleton")):
+            o = sig_from_state(st2)
+            buf = io.BytesIO(b"\xee" * 40)
+            buf.seek(rng.choice([0, 5, 40]))
+            try:
+                getattr(o, meth)(buf)
+                data = buf.getvalue()
+                n = buf.tell()
+                want = [0, list(data[:n])] if data[n:] == b"\xee" * (40 - n) else [2, "the method did not write from offset 0"]
+            except Exception as e:  # noqa
+                want = [1, err_code(e)]
+            got = model.call(fn, st2)
+            cnt += 1
+            rep.dist("translation_SignatureHeader", "%s %s" % (meth, "ok" if want[0] == 0 else "err%s" % want[1]))
+            if got != want:
+                _violation(rep, "the function translated from SignatureHeader.%s disagrees with the Python on %r: generated %r, Python %r" % (
+                    meth, st2, got, want), {"object": st2, "method": meth}, "SignatureHeader." + meth)
+                return cnt
+    return cnt
+
+
+def check_sig_read(ctx, rep, rng, tier):
+    """SignatureHeader._read on whole file images: valid start headers, wrong CRCs, short files; the file object may be
+    positioned anywhere (the method seeks to offset 6 itself)"""
+    if not available(ctx, "gen_SignatureHeader_retrieve"):
+        return 0
+    import struct
+    import zlib
+    model = ctx["model"]
+    cnt = 0
+    for i in range(600 if tier == "quick" else 20000):
+        ofs, size, hcrc = rng.getrandbits(rng.choice([8, 40, 64])), rng.getrandbits(rng.choice([8, 40, 64])), rng.getrandbits(32)
+        start = struct.pack("<QQL", ofs, size, hcrc)
+        img = bytes(rng.randrange(256) for _ in range(6)) + bytes([rng.randrange(256), rng.randrange(256)]) + \
+            struct.pack("<L", zlib.crc32(start)) + start + bytes(rng.randrange(256) for _ in range(rng.choice([0, 0, 5, 100])))
+        r = rng.random()
+        if r < 0.25:
+            img = mutate(rng, img)
+        elif r < 0.45:
+            img = img[:rng.randrange(len(img) + 1)]
+        f = io.BytesIO(img)
+        f.seek(rng.choice([0, 0, 3, len(img)]))
+        try:
+            o = ai.SignatureHeader.retrieve(f)
+            want = [0, sig_state(o)]
+        except Exception as e:  # noqa
+            want = [1, err_code(e)]
+        got = model.call("gen_SignatureHeader_retrieve", list(img))
+        if got[0] == 0:
+            got = [0, got[1][0]]
+        cnt += 1
+        rep.dist("translation_SignatureHeader_read", ("short " if len(img) < 32 else "") + ("ok" if want[0] == 0 else "err%d" % want[1]))
+        if got != want:
+            _violation(rep, "the function translated from SignatureHeader._read disagrees with the Python on the file %s: generated %r, "
+                            "Python %r" % (img.hex(), got, want), {"input": img.hex()}, "SignatureHeader._read")
+            return cnt
+    return cnt
+
+
 READER_PARTS = [check_packinfo_read, check_small_functions, check_folder, check_unpackinfo_read, check_substreams_read,
-                check_substreams_default, check_streams_read, check_files_read_pieces, check_files_read]
-WRITER_PARTS = [check_packinfo_write, check_small_functions, check_folder, check_unpackinfo_write, check_substreams_write, check_streams_write, check_files_write_pieces, check_files_write]
+                check_substreams_default, check_streams_read, check_files_read_pieces, check_files_read, check_sig_read]
+WRITER_PARTS = [check_packinfo_write, check_small_functions, check_folder, check_unpackinfo_write, check_substreams_write, check_streams_write, check_files_write_pieces, check_files_write, check_sig_write]
 
 
 def _run(ctx, rep, rng, tier, parts, label):
